@@ -30,6 +30,14 @@ TRANSLATOR_PARTS += ["melody"]
 # equal to the hand-written pattern model for all pattern lists; suite `gen_pattern` runs them (driver op `gen.pattern`)
 TRANSLATOR_PARTS += ["validators", "pattern"]
 TRANSLATOR_PARTS += ["beat"]     # trim_beats, _get_reference_beat_variations, p_score regenerated (lean/MirGen/Beat.lean); Props/C04_GenBeat.lean; suite gen_beat
+# mir_eval.alignment's metrics and the glue of its `evaluate` are REGENERATED from the source (translate/alignment.py ->
+# lean/MirGen/Alignment.lean; `validate` is the definition of the `validators` part, hence that part is regenerated here too);
+# Props/C04_GenAlignment.lean proves the generated definitions equal to the hand-written alignment model for all timestamp
+# lists; suite `gen_alignment` runs them (driver op `gen.alignment`) against the real functions
+TRANSLATOR_PARTS += ["validators", "alignment"]
+# ... and the `evaluate` glue of onset / tempo (translate/evalglue.py -> lean/MirGen/EvalGlue.lean, over the metric definitions
+# of the `evglue` part; Props/C04_GenEvalGlue.lean; suite `gen_evalglue`)
+TRANSLATOR_PARTS += ["evalglue"]
 _here = os.path.dirname(os.path.abspath(__file__))
 _props = os.path.join(os.path.dirname(os.path.dirname(_here)), "lean", "MirProofs", "Props")
 LEAN_MODULES = sorted("MirProofs.Props." + os.path.basename(f)[:-5]
@@ -389,6 +397,18 @@ def _gb_available():
     import proto
     try:
         outs = core.run_driver(["0 gen.beat %s\n" % proto.enc("?")])
+
+# ------------------------------------------------------------------------------------------------
+# suite gen_alignment: the GENERATED alignment definitions (lean/MirGen/Alignment.lean, driver op `gen.alignment`) vs the real
+# functions, and the run-time library's primitives themselves (`pyal.*`) vs NumPy / SciPy on the shapes `alignment.validate`
+# never lets through (empty / unequal lengths) — lean/MirModel/PyAl.lean is the translator's semantic assumption
+
+def _ga_available():
+    """the functions the translator emitted on THIS run (driver op `gen.alignment "?"`)"""
+    import core
+    import proto
+    try:
+        outs = core.run_driver(["0 gen.alignment %s\n" % proto.enc("?")])
         v = proto.dec_line(outs[0])[1]
     except Exception:  # noqa: BLE001
         return set()
@@ -608,6 +628,135 @@ def _suite_gen_beat(rng, tier, shard, nshards):
 
 
 SUITES["gen_beat"] = suite_gen_beat
+def _ga_retarget(case):
+    fn = case.op.split(".", 1)[1]
+    info = dict(case.info or {}, op="gen.alignment", fn=fn)
+    return Case("gen.alignment", [fn] + list(case.args), case.call, tol=case.tol, tag="gen " + case.tag, info=info,
+                nontrivial=case.nontrivial, post=case.post)
+
+
+def _ga_prim_cases(rng, tier):
+    import itertools
+    import warnings
+    import numpy as np
+    import gen
+    from fractions import Fraction as Fr
+    from scipy.stats import skewnorm
+    reps = 2 if tier == "quick" else 10
+    vals = [Fr(0), Fr(1), Fr(1, 2), Fr(-3, 4), Fr(100), Fr(5, 4), Fr(7, 32)]
+
+    def quiet(f):
+        def g():
+            with warnings.catch_warnings():
+                warnings.simplefilter("ignore")
+                with np.errstate(all="ignore"):
+                    return f()
+        return g
+    for la in range(7):
+        for _ in range(reps):
+            a = [rng.choice(vals) for _ in range(la)]
+            m = [rng.random() < 0.5 for _ in range(la)]
+            A, M = gen.arr(a), np.array(m, dtype=bool)
+            info = {"op": "pyal", "a": [str(x) for x in a], "m": m}
+            tag = "prim n=%d" % la
+            yield Case("pyal.median", [a], quiet(lambda A=A: float(np.median(A))), tag=tag, info=info)
+            yield Case("pyal.mean", [a], quiet(lambda A=A: float(np.mean(A))), tag=tag, info=info)
+            yield Case("pyal.meanMask", [m], quiet(lambda M=M: float(np.mean(M))), tag=tag, info=info)
+            yield Case("pyal.max", [a], lambda A=A: float(np.max(A)), tag=tag, info=info)
+            yield Case("pyal.dropLast", [a], lambda A=A: A[:-1], tag=tag, info=info)
+            yield Case("pyal.drop1", [a], lambda A=A: A[1:], tag=tag, info=info)
+            for i in range(-la - 1, la + 1):
+                yield Case("pyal.getIdx", [a, i], lambda A=A, i=i: float(A[i]), tag=tag, info=dict(info, i=i))
+    for la, lb in itertools.product(range(4), repeat=2):
+        for _ in range(reps):
+            a = [rng.choice(vals) for _ in range(la)]
+            b = [rng.choice(vals) for _ in range(lb)]
+            A, B = gen.arr(a), gen.arr(b)
+            tag = "prim lengths %s" % ("equal" if la == lb else "one" if 1 in (la, lb) else "unequal")
+            info = {"op": "pyal", "a": [str(x) for x in a], "b": [str(x) for x in b]}
+            yield Case("pyal.vmax", [a, b], lambda A=A, B=B: np.maximum(A, B), tag=tag, info=info)
+            yield Case("pyal.vmin", [a, b], lambda A=A, B=B: np.minimum(A, B), tag=tag, info=info)
+    for _ in range(40 if tier == "quick" else 400):
+        x = Fr(rng.randint(-6 * 64, 6 * 64), 64)
+        a = rng.choice([Fr(0), Fr(112244251, 100000000), Fr(-2), Fr(3)])
+        loc = rng.choice([Fr(0), Fr(-22270315, 100000000), Fr(1, 2)])
+        sc = rng.choice([Fr(1), Fr(29779424, 100000000), Fr(2)])
+        yield Case("pyal.skewnormPdf", [x, a, loc, sc],
+                   lambda x=x, a=a, loc=loc, sc=sc: float(skewnorm.pdf(float(x), float(a), loc=float(loc), scale=float(sc))),
+                   tol=1e-9, tag="prim skewnorm.pdf", info={"op": "pyal.skewnormPdf", "x": str(x), "a": str(a),
+                                                            "loc": str(loc), "scale": str(sc)})
+
+
+def suite_gen_alignment(rng, tier, shard, nshards):
+    """the existing alignment streams (E lattice with offsets on / next to the window, D decimals, X faults: empty, unequal
+    sizes, decreasing, negative, bad durations, identical reference; evaluate with / without window / duration; the
+    perceptual sweep) asked of the GENERATED definitions, and the run-time primitives against NumPy / SciPy"""
+    from suites import alignment as AS
+    avail = _ga_available()
+    for name, cap in (("alignment.metrics", 1500), ("alignment.evaluate", 200), ("alignment.perceptual_sweep", 100)):
+        for j, c in enumerate(AS.SUITES[name](rng, tier, shard, nshards)):
+            if tier == "quick" and j >= cap:
+                break
+            if c.op == "alignment.validate":
+                continue                                  # the `validators` part's definition: suite gen_validators (C14)
+            if c.op.split(".", 1)[1] in avail:
+                yield _ga_retarget(c)
+    # the corner the streams above do not reach: all timestamps 0, where `duration <= 0` is the ONLY guard between
+    # `duration = 0` and 0/0 (any positive timestamp already exceeds a non-positive duration) — asked of the hand model AND of
+    # the generated definition
+    from fractions import Fraction as _F
+    for n in (1, 2, 3):
+        z = [_F(0)] * n
+        for d in (_F(0), _F(-1), _F(1, 32), None):
+            c = AS.case("alignment.percentage_correct_segments", [z, list(z), d], "X all-zero timestamps duration=%s" % d,
+                        nontrivial=False)
+            if "percentage_correct_segments" in avail:
+                yield _ga_retarget(c)
+    for c in _ga_prim_cases(rng, tier):
+        yield c
+
+
+SUITES["gen_alignment"] = suite_gen_alignment
+
+
+def suite_alignment_zero_corner(rng, tier, shard, nshards):
+    """HAND MODEL vs the real `percentage_correct_segments` where all timestamps are 0 (see suite_gen_alignment): not a gen_*
+    suite, so a disagreement here is a failing input of C04"""
+    from fractions import Fraction as _F
+    from suites import alignment as AS
+    for n in (1, 2, 3):
+        z = [_F(0)] * n
+        for d in (_F(0), _F(-1), _F(1, 32), None):
+            yield AS.case("alignment.percentage_correct_segments", [z, list(z), d],
+                          "X all-zero timestamps duration=%s" % d, nontrivial=False)
+
+
+SUITES["alignment.zero_corner"] = suite_alignment_zero_corner
+
+
+def suite_gen_evalglue(rng, tier, shard, nshards):
+    """the existing `onset.evaluate` / `tempo.evaluate` streams (window / tol given or defaulted, faults) asked of the GENERATED
+    glue (lean/MirGen/EvalGlue.lean, driver op `gen.evalglue`)"""
+    import core
+    import proto
+    from suites import onset as OS, tempo as TS
+    try:
+        outs = core.run_driver(["0 gen.evalglue %s\n" % proto.enc("?")])
+        avail = proto.dec_line(outs[0])[1]
+        avail = set(avail) if isinstance(avail, list) else set()
+    except Exception:  # noqa: BLE001
+        avail = set()
+    for gen_suite in (OS.SUITES["onset.evaluate"], TS.SUITES["tempo.evaluate"]):
+        for j, c in enumerate(gen_suite(rng, tier, shard, nshards)):
+            if tier == "quick" and j >= 400:
+                break
+            if c.op in avail:
+                info = dict(c.info or {}, op="gen.evalglue", fn=c.op)
+                yield Case("gen.evalglue", [c.op] + list(c.args), c.call, tol=c.tol, tag="gen " + c.tag, info=info,
+                           nontrivial=c.nontrivial, post=c.post)
+
+
+SUITES["gen_evalglue"] = suite_gen_evalglue
 
 CHECKERS = {"documented_defaults": check_defaults}
 ORACLES = {"documented_defaults": gen_defaults}
